@@ -212,14 +212,11 @@ func (w *c14eWorld) failCount(si, tx int) int {
 }
 
 // open builds a node: store, state, engine, subscribers (the Configure step of a life). delay is the retry delay.
-func (w *c14eWorld) open(delay time.Duration, fault c14eAttempt) *c14eLife {
+func (w *c14eWorld) open(delay time.Duration) *c14eLife {
 	x := w.x
 	inner, err := bbolt.CreateBBoltStore(w.path, stoabs.WithNoSync(), stoabs.WithLockAcquireTimeout(30*time.Second))
 	x.NoErr(err, "bbolt")
 	kv := &c14eKV{inner: inner}
-	if fault.Nth > 0 {
-		kv.shelf, kv.nth = w.shelf(fault.Shelf%len(w.c.Subs)), fault.Nth
-	}
 	st, err := dag.NewState(kv, dag.NewPrevTransactionsVerifier(), dag.NewTransactionSignatureVerifier(c14eNoKeys{}))
 	x.NoErr(err, "NewState")
 	x.NoErr(st.Configure(core.ServerConfig{}), "state.Configure")
@@ -364,7 +361,7 @@ func c14eRun(x *h.Ctx, c c14eCase) {
 	}
 
 	// first life: admissions while receivers fail; loops fall asleep (one hour) after their first retry
-	life := w.open(time.Hour, c14eAttempt{})
+	life := w.open(time.Hour)
 	x.NoErr(life.net.Start(), "first start")
 	for i := 0; i < c.Txs; i++ {
 		x.NoErr(life.st.Add(context.Background(), w.txs[i], w.payloads[i]), "Add")
@@ -383,7 +380,7 @@ func c14eRun(x *h.Ctx, c c14eCase) {
 		if ai == len(attempts)-1 {
 			at = c14eAttempt{}
 		}
-		life := w.open(time.Nanosecond, at)
+		life := w.open(time.Nanosecond)
 		// what this life finds on the shelves
 		type found struct {
 			si  int
@@ -396,6 +393,21 @@ func c14eRun(x *h.Ctx, c c14eCase) {
 				start = append(start, found{si, ref, j})
 			}
 		}
+		// arm the fault now that the shelves are known: reads 1 .. 1+jobs of a shelf are Run()'s own (the listing, then one job
+		// read per delivery at start-up); later reads belong to retry loops, which the notifier gives up on a storage error
+		// of its own (nothing is promised then), so the fault is kept within Run().
+		target := at.Shelf % len(c.Subs)
+		onTarget := 0
+		for _, f := range start {
+			if f.si == target {
+				onTarget++
+			}
+		}
+		if at.Nth > 0 {
+			life.kv.mu.Lock()
+			life.kv.shelf, life.kv.nth, life.kv.seen = w.shelf(target), min(at.Nth, 1+onTarget), 0
+			life.kv.mu.Unlock()
+		}
 		err := life.net.Start()
 		w.waitQuiet("after start", false)
 		hit := life.kv.hits > 0
@@ -404,20 +416,13 @@ func c14eRun(x *h.Ctx, c c14eCase) {
 			x.Class("start:no-fault")
 		case !hit:
 			x.Class("start:fault-not-reached")
-		case at.Nth == 1:
+		case life.kv.nth == 1:
 			x.Classf("start:listing-read-fails:error=%v", err != nil)
 		default:
 			x.Classf("start:job-read-fails:error=%v", err != nil)
 		}
 		if hit {
-			x.Classf("fault-on-subscriber=%d/%d:pending-there=%v", at.Shelf%len(c.Subs), len(c.Subs), len(w.jobs(at.Shelf%len(c.Subs))) > 0 || func() bool {
-				for _, f := range start {
-					if f.si == at.Shelf%len(c.Subs) {
-						return true
-					}
-				}
-				return false
-			}())
+			x.Classf("fault-on-subscriber=%d/%d:pending-there=%v", target, len(c.Subs), onTarget > 0)
 		}
 		if err != nil {
 			if !hit {
@@ -441,6 +446,13 @@ func c14eRun(x *h.Ctx, c c14eCase) {
 				fault = "fault"
 			}
 			switch {
+			case f.job.Retries >= c14eBudget || (hit && f.si == target && life.kv.nth > 1 && f.job.Retries >= c14eBudget-1):
+				// budget spent in an earlier life (or its last attempt went into the delivery whose job read failed, which
+				// spends an attempt without reaching the receiver): nothing more is owed, but the job stays visible
+				if !still && !ok {
+					x.Violate("job-vanished-after-start", "start attempt %d: the spent job of subscriber %d for transaction %d is gone although the receiver never completed", ai+1, f.si, tx)
+				}
+				x.Class("start-finds-spent-job")
 			case calls == 0:
 				x.Violate("pending-job-not-resumed-by-successful-start", "start attempt %d (%s: read %d of %s) returned nil, but the job of subscriber %d for transaction %d (%d retries recorded) was not delivered by this life",
 					ai+1, fault, at.Nth, w.shelf(at.Shelf%len(c.Subs)), f.si, tx, f.job.Retries)
